@@ -246,11 +246,14 @@ macro_rules! combine_impls {
                                                         }
                                                     }
                                                     Message::Data(data) => {
-                                                        let n_data = if vals
-                                                            .load()
-                                                            .$idx
-                                                            .is_none()
-                                                        {
+                                                        let was_none =
+                                                            vals.load().$idx.is_none();
+                                                        vals.rcu(move |vals| {
+                                                            let mut vals = (**vals).clone();
+                                                            vals.$idx = Some(data.clone());
+                                                            vals
+                                                        });
+                                                        let n_data = if was_none {
                                                             n_data.fetch_sub(
                                                                 1,
                                                                 AtomicOrdering::AcqRel,
@@ -260,11 +263,6 @@ macro_rules! combine_impls {
                                                                 AtomicOrdering::Acquire,
                                                             )
                                                         };
-                                                        vals.rcu(move |vals| {
-                                                            let mut vals = (**vals).clone();
-                                                            vals.$idx = Some(data.clone());
-                                                            vals
-                                                        });
                                                         if n_data == 0 {
                                                             call!(
                                                                 sink,
